@@ -44,6 +44,9 @@ I = [
     ['meta', {'metadata': {'k': 1}, 'encoding': 'rot13'}],
     ['meta', {'metadata': {'k': 1}, 'encoding': 'hex'}],
     ['diff', {'content': b'x\n', 'encoding': 'base64'}],
+    ['diff', {'content': b'x\n', 'encoding': 'no-such-codec'}],
+    ['diff', {'content': b'x\r\n', 'encoding': 'no-such-codec',
+              'line_endings': 'dos'}],
     ['diff', {'content': b'x\n', 'line_endings': 'mac'}],
     ['meta', {'metadata': [1]}],
     ['meta', {'metadata': {}}],
@@ -212,7 +215,8 @@ VALID_EXTRAS = {
     'meta': [('meta_format', 'json'), ('encoding', 'utf-8'),
              ('line_endings', 'unix')],
     'diff': [('diff_type', 'binary'), ('diff_type', 'text'),
-             ('line_endings', 'dos'), ('encoding', 'utf-8')],
+             ('line_endings', 'dos'), ('line_endings', 'unix'),
+             ('encoding', 'utf-8')],
 }
 I_EXT = []
 
@@ -641,7 +645,7 @@ def checks():
             'exhaustive', chunks, run_chunk, run_case=run_case,
             rule='all call sequences over the 5 operations with valid '
                  'arguments up to length LV, and all sequences over 12 valid '
-                 '+ 53 invalid-argument variants (wrong types, empty content, '
+                 '+ 60 invalid-argument variants (wrong types, empty content, '
                  'bad option values, unencodable text incl. lone surrogates, '
                  'unknown and non-text codecs) + 13 codec names that cannot '
                  'stand as a header value (refused atomically, or accepted '
